@@ -1,5 +1,7 @@
 import PhyVerif.Driver.Json
+import PhyVerif.Driver.Rat
 import PhyVerif.Model.C16
+import PhyVerif.Model.C16c
 import PhyVerif.Spec.C16
 namespace PhyVerif.Driver
 open Lean PhyVerif.C16
@@ -37,13 +39,25 @@ def runC16 (op : String) (j : Json) : R Json := do
     pure (Json.mkObj [("model", jList jChunk m), ("model_spec", Json.bool (tileOK n cs m)),
                       ("impl_spec", spec)])
   | "get_chunk_bounds" =>
-    let sizes ← getNats j "sizes"; let cs ← getNat j "cs"
+    -- with "rate" (exact rational of the float handed to the real reader) instead of "cs": the chunk length
+    -- is the model's `chunkSize rate`; a rate the constructor rejects gives model = null
+    let sizes ← getNats j "sizes"
+    let csI : Int ← if hasFld j "rate" then do
+        let rate ← fld j "rate" >>= asRat
+        pure (chunkSize rate)
+      else do
+        let cs ← getNat j "cs"
+        pure (cs : Int)
+    if csI ≤ 0 then
+      pure (Json.mkObj [("model", Json.null), ("cs", jInt csI)])
+    else
+    let cs := csI.toNat
     let m := getChunkBounds sizes cs
     let spec ← if hasFld j "impl" then do
         let ib ← getNats j "impl"
         pure (Json.bool (boundsOK sizes cs ib && intervalsTile sizes.sum (iterChunksBase ib)))
       else pure Json.null
-    pure (Json.mkObj [("model", jNats m), ("part_bounds", jNats (partBounds sizes)),
+    pure (Json.mkObj [("model", jNats m), ("cs", jNat cs), ("part_bounds", jNats (partBounds sizes)),
                       ("iter", jList jPairN (iterChunksBase m)),
                       ("model_spec", Json.bool (boundsOK sizes cs m && intervalsTile sizes.sum (iterChunksBase m))),
                       ("impl_spec", spec)])
@@ -55,8 +69,21 @@ def runC16 (op : String) (j : Json) : R Json := do
         let iv ← fld j "impl" >>= asList asPairN
         pure (Json.bool (intervalsTile n iv))
       else pure Json.null
-    pure (Json.mkObj [("model", jList jPairN m), ("model_spec", Json.bool (intervalsTile n m)),
-                      ("impl_spec", spec)])
+    -- the chunk table itself: "n" samples compressed with chunk duration "cd" at "rate" (exact rationals);
+    -- `table_spec` = the reader clause (0 -> n, strictly increasing, gaps <= chunk length) on the REAL table
+    let tbl ← if hasFld j "cd" then do
+        let n ← getNat j "n"
+        let cd ← fld j "cd" >>= asRat; let rate ← fld j "rate" >>= asRat
+        let cs := mtsChunkSize cd rate
+        if cs ≤ 0 then pure [("table_cs", jInt cs)] else
+        pure [("table_cs", jInt cs), ("table", jOpt jNats (mtsTable n cs.toNat)),
+              ("table_spec", Json.bool (boundsOK [n] cs.toNat b))]
+      else pure []
+    pure (Json.mkObj ([("model", jList jPairN m), ("model_spec", Json.bool (intervalsTile n m)),
+                      ("impl_spec", spec)] ++ tbl))
+  | "chunk_size" =>
+    let rate ← fld j "rate" >>= asRat
+    pure (Json.mkObj [("model", jInt (chunkSize rate))])
   | "excerpts" =>
     let n ← getInt j "n"; let k ← getInt j "k"; let size ← getInt j "size"
     let m := excerpts n k size
